@@ -145,8 +145,16 @@ func (s *S) quiesce(live bool, where string) {
 	if !e.WaitReconnectingZero(5 * time.Second) {
 		s.fail("reconnecting gauge not zero at a quiescent point", fmt.Sprintf("%s value=%d", where, e.Conn.Metrics().Reconnecting()))
 	}
-	time.Sleep(500 * time.Microsecond)
-	x := s.indep()
+	// the increments follow the observable effects by a few instructions on other goroutines:
+	// poll (bounded) until the getters agree with the independent counts; a leaked or missed
+	// unit never converges and is reported below
+	var x indep
+	waitFor(2*time.Second, func() bool {
+		x = s.indep()
+		m := e.Metrics()
+		return m[0] == x.sent && m[1] >= x.recvEv && m[1] <= x.recvHi && m[2] == 0 && m[3] == x.err && m[4] == x.drop && m[5] == x.aerr && m[6] == 0 && m[7] == s.reconnects
+	})
+	x = s.indep()
 	if !settled {
 		s.unsettled = true
 		s.c.Count("recv-unsettled")
@@ -518,6 +526,7 @@ func modelEq(c *vh.Ctx) {
 		p := e.Peer(0)
 		s.wait(e.Start(genx.KSyncW, bg)) // 0: reply
 		e.WaitReconnectingZero(2 * time.Second)
+		e.WaitSettled(2 * time.Second)
 		e.Snapshot(true)
 		p.RejectAll.Store(true)
 		s.wait(e.Start(genx.KSyncW, bg)) // 1: reject
@@ -526,6 +535,7 @@ func modelEq(c *vh.Ctx) {
 		s.wait(e.Start(genx.KSyncW, bg)) // 2: T3
 		p.TakeHeld()
 		p.Mute.Store(false)
+		e.WaitSettled(2 * time.Second)
 		e.Snapshot(true)
 		rel := e.StallCall(3)
 		cl := e.Start(genx.KSyncW, bg) // 3: B2 refusal
@@ -544,6 +554,7 @@ func modelEq(c *vh.Ctx) {
 		s.must(e.WaitSelected(1, 10*time.Second), "generation 1")
 		e.WaitReconnectingZero(2 * time.Second)
 		s.wait(e.Start(genx.KSyncNW, bg)) // 5
+		e.WaitSettled(2 * time.Second)
 		e.Snapshot(true)
 		acts := "open up sel " +
 			"en 0 0 b1 0 rg 0 cp 0 ck 0 wo 0 ar 0 ps 0 reply 0 rd 0 rt 0 cr 0 snap " +
